@@ -399,6 +399,7 @@ func c10TagRules(c *kit.Ctx, m *c10Model) {
 	}
 	var disps []*disp
 	var fnSeen []string
+	helpers := map[*kit.Func][]*kit.Ob{} // functions that return derived keys -> their derivation sites
 	nsites := 0
 	for _, f := range c.P.Funcs("data") {
 		if f.Body == nil {
@@ -416,6 +417,9 @@ func c10TagRules(c *kit.Ctx, m *c10Model) {
 		// ---- R2 per key variable
 		for i, o := range tv.order {
 			nsites++
+			if i == 0 && c10FlowsToReturn(f, tv.key) {
+				helpers[f] = nil
+			}
 			o2 := r2.Ob(f, nil, fmt.Sprintf("key derivation #%d (%s)", i+1, o.Name()),
 				"the key is the point tag, else the edgepoint tag, else the camel-cased field name")
 			o2.Site = c.P.Pos(o.Pos())
@@ -458,6 +462,13 @@ func c10TagRules(c *kit.Ctx, m *c10Model) {
 				}
 			}
 		}
+		if _, isHelper := helpers[f]; isHelper {
+			for _, ob := range r2.Obs {
+				if ob.Func == f.PkgRel()+"."+f.Name {
+					helpers[f] = append(helpers[f], ob)
+				}
+			}
+		}
 		// ---- R4 dispatch sequence of this function
 		if len(tv.dispatch) > 0 {
 			var seqs [][]string
@@ -478,6 +489,40 @@ func c10TagRules(c *kit.Ctx, m *c10Model) {
 		}
 	}
 	_ = nsites
+	// keys obtained through a helper: each call site is a derivation site whose
+	// chain is the helper's
+	if len(helpers) > 0 {
+		for _, g := range c.P.Funcs("data") {
+			if g.Body == nil {
+				continue
+			}
+			n := 0
+			for _, call := range g.AllCalls(false) {
+				h := g.CalleeFunc(call)
+				obs, ok := helpers[h]
+				if !ok || h == g {
+					continue
+				}
+				n++
+				o := r2.Ob(g, call, fmt.Sprintf("key derivation through %s #%d", h.Name, n),
+					"the keys come from a helper whose derivation is the point tag, else the edgepoint tag, else the camel-cased field name")
+				bad := ""
+				for _, ho := range obs {
+					if ho.Status != "ok" {
+						bad = ho.Msg
+					}
+				}
+				if bad != "" || len(obs) == 0 {
+					o.Violation("%s derives the keys differently: %s", h.Name, bad)
+				} else {
+					o.OK("%s: %s", h.Name, obs[0].By)
+				}
+			}
+		}
+		c10R7(c, helpers)
+	} else {
+		c.Rule("R7", "a memo of derived keys is keyed injectively on types", 0)
+	}
 	// roles
 	calls := func(f, g *kit.Func) bool {
 		for _, call := range f.AllCalls(false) {
@@ -588,4 +633,95 @@ func c10TagRules(c *kit.Ctx, m *c10Model) {
 			o.OK("%d tag values, all tested by %s", n, dec.f.Name)
 		}
 	}
+}
+
+// c10FlowsToReturn reports whether a key variable of f flows (assignments,
+// append, element stores) into a returned value.
+func c10FlowsToReturn(f *kit.Func, keys map[types.Object]bool) bool {
+	info := f.Info()
+	tainted := map[types.Object]bool{}
+	for o := range keys {
+		tainted[o] = true
+	}
+	mentions := func(n ast.Node) bool {
+		hit := false
+		ast.Inspect(n, func(x ast.Node) bool {
+			if id, ok := x.(*ast.Ident); ok {
+				if o := info.Uses[id]; o != nil && tainted[o] {
+					hit = true
+				}
+			}
+			return true
+		})
+		return hit
+	}
+	base := func(e ast.Expr) types.Object {
+		for {
+			switch x := ast.Unparen(e).(type) {
+			case *ast.IndexExpr:
+				e = x.X
+			case *ast.SelectorExpr:
+				e = x.X
+			default:
+				return kit.ObjOf(info, e)
+			}
+		}
+	}
+	for changed := true; changed; {
+		changed = false
+		ast.Inspect(f.Body, func(n ast.Node) bool {
+			if as, ok := n.(*ast.AssignStmt); ok {
+				dep := false
+				for _, r := range as.Rhs {
+					dep = dep || mentions(r)
+				}
+				if dep {
+					for _, l := range as.Lhs {
+						if o := base(l); o != nil && !tainted[o] {
+							tainted[o] = true
+							changed = true
+						}
+					}
+				}
+			}
+			return true
+		})
+	}
+	ret := false
+	ast.Inspect(f.Body, func(n ast.Node) bool {
+		if _, ok := n.(*ast.FuncLit); ok {
+			return false
+		}
+		if r, ok := n.(*ast.ReturnStmt); ok {
+			for _, e := range r.Results {
+				if mentions(e) && c10IsKeyish(info.TypeOf(e)) {
+					ret = true
+				}
+			}
+		}
+		return true
+	})
+	return ret
+}
+
+// c10IsKeyish: string, or slice/array/map of strings (a table of keys).
+func c10IsKeyish(t types.Type) bool {
+	if t == nil {
+		return false
+	}
+	isStr := func(t types.Type) bool {
+		b, ok := t.Underlying().(*types.Basic)
+		return ok && b.Info()&types.IsString != 0
+	}
+	switch u := t.Underlying().(type) {
+	case *types.Basic:
+		return isStr(t)
+	case *types.Slice:
+		return isStr(u.Elem())
+	case *types.Array:
+		return isStr(u.Elem())
+	case *types.Map:
+		return isStr(u.Elem()) || isStr(u.Key())
+	}
+	return false
 }
